@@ -60,6 +60,9 @@ def sv_cases(draw: Any, feat: Optional[S.Features] = None, nrand: int = 2, max_l
             hex_numbers=draw(st.booleans()),
             seed=draw(st.integers(0, 999)),
             trailing_newline=draw(st.booleans()),
+            spicy_comments=draw(st.booleans()),
+            trailing_comments=draw(st.booleans()),
+            join_statements=draw(st.booleans()),
         )
     return SVCase(unit, rand, style, cfg)
 
